@@ -746,7 +746,8 @@ def run_cases(ctx, td, data, flat, groups, seqs=()):
         try:
             obs = impl_flat(work, c, data)
         except Exception as e:
-            ctx.fail("opening raised an unexpected %s: %s" % (type(e).__name__, str(e)[:200]), describe(c),
+            ctx.fail("opening / observing the reader raised an unexpected %s: %s" % (type(e).__name__, str(e)[:200]),
+                     describe(c),
                      {"mode": c["mode"], "reader": c["reader"], "exception": type(e).__name__})
             continue
         done.append((c, obs))
